@@ -2,7 +2,7 @@
    Semantic side.  Only statements; proofs in Sem/RelProofs.v and C08/ProofsRelevant.v. *)
 From Coq Require Import NArith QArith List Bool Permutation.
 From PL.Sem Require Import Program Sem SemFast SemBasics PermProofs PermFO RelProofs.
-From PL.C08 Require Import ProofsRelevant.
+From PL.C08 Require Import ProofsRelevant ProofsRelevantTV.
 Import ListNotations.
 
 (* The value of a query on a ground program does not mention the other queries (roots) at all. *)
@@ -83,6 +83,20 @@ Theorem C08_relevant_two_valued : forall cs goals cs' ev q,
 Proof. exact (prob_gen_restrict_tv gatom gatom_eqb gatom_eqb_spec). Qed.
 Print Assumptions C08_relevant_two_valued.
 
+(* STRONGEST FORM.  For a program with well-formed weights (0 <= p <= 1, sum p <= 1 in every AD instance: what
+   `wf_program` checks) the only semantic hypothesis is that the WHOLE program is not rejected as not two-valued:
+   then the relevant ground program is not rejected either and gives the same value.  (`neg_cycle_free cs` implies
+   the hypothesis, so for well-formed programs this subsumes C08_relevant.)  Behind it: an atom that is undefined in
+   the well-founded model has an undefined body atom, so an undefined atom in a world of the relevant program
+   implies an undefined atom of the cone; world sums are monotone for non-negative weights. *)
+Theorem C08_relevant_wf : forall cs goals cs' ev q,
+  (forall c, In c cs -> wf_clause c = true) ->
+  restrict gatom gatom_eqb cs goals = Some cs' -> In q goals -> (forall e, In e ev -> In (fst e) goals) ->
+  prob_gen gatom gatom_eqb cs ev q <> NotTwoValued ->
+  prob_gen gatom gatom_eqb cs' ev q = prob_gen gatom gatom_eqb cs ev q.
+Proof. exact (prob_gen_restrict_wf gatom gatom_eqb gatom_eqb_spec). Qed.
+Print Assumptions C08_relevant_wf.
+
 (* Without any hypothesis on negation: the unnormalised masses (P(e), P(q /\ e), any check that only reads
    atoms of the cone C) and the mass of the worlds in which an atom of the cone is undefined (the sum Sem.classify
    uses) are those of the restricted program.  Choices of AD instances outside the cone marginalise to 1. *)
@@ -129,9 +143,9 @@ Proof. exact more_roots_relevant. Qed.
 Print Assumptions C08_more_roots_relevant.
 
 (* Still not stated: C08_roots_monotone / C08_order_free on the pipeline model ground_m (DESIGN C01 stretch:
-   needs a model of the engine's grounding).  C08_relevant under the weaker hypothesis "prob_gen cs ev q is not
-   NotTwoValued" instead of neg_cycle_free (needs non-negative weights and: an atom undefined in the restricted
-   world has an undefined atom of the cone below it). *)
+   needs a model of the engine's grounding).  The hypothesis "the whole program is not NotTwoValued" of C08_relevant_wf
+   cannot be dropped: a negative loop outside the cone makes the program NotTwoValued while the relevant ground program
+   answers. *)
 
 Example C08_example :
   gprob (mkG [AD [(3#10, (1%N, []))] []; Rule (2%N, []) [Pos (1%N, [])]; AD [(1#2, (5%N, []))] []] [(2%N, [])] []) (2%N, [])
@@ -153,3 +167,14 @@ Example C08_relevant_example_value :
   prob_gen gatom gatom_eqb ex_cs' [((4%N, []), false)] (2%N, []) = Ok (3#10) /\
   prob_gen gatom gatom_eqb ex_cs [((4%N, []), false)] (2%N, []) = Ok (3#10).
 Proof. split; vm_compute; reflexivity. Qed.
+
+(* C08_relevant_wf applies where C08_relevant does not: a negative loop outside the cone (p :- \+q, f.  q :- \+p, f.
+   with f underivable) that is two-valued in every world: not neg_cycle_free, not rejected, weights well-formed. *)
+Definition ex_cs2 : list (clause gatom) :=
+  [AD [(3#10, (1%N, []))] []; Rule (2%N, []) [Neg (3%N, []); Pos (4%N, [])]; Rule (3%N, []) [Neg (2%N, []); Pos (4%N, [])]].
+Example C08_relevant_wf_example :
+  neg_cycle_free gatom gatom_eqb ex_cs2 = Some false /\
+  forallb (@wf_clause gatom) ex_cs2 = true /\
+  prob_gen gatom gatom_eqb ex_cs2 [] (1%N, []) = Ok (3#10) /\
+  restrict gatom gatom_eqb ex_cs2 [(1%N, [])] = Some [AD [(3#10, (1%N, []))] []].
+Proof. vm_compute. repeat split; reflexivity. Qed.
